@@ -179,9 +179,12 @@ def check_r2_mq(chk, cfg, mods):
             chk.ob("R2.mq-order", inst, ok,
                    "ordering %s; needs >= %s: %s%s" % (a.ordering, need[0], need[2], why_ok if ok else ""), a.inst.loc, fn.name)
     chk.expect("R2", "message-queue hand-off sites [%s]" % cfg, n, 4)
+
+
+def check_sender_plain_writes(chk, cfg, mods):
     # many senders run claim / send concurrently: a plain (non-atomic) store to the shared descriptor from either is a write-write
     # race between two senders, whatever the field is for (a statistic, a cache)
-    for m, fn, acc in mq.mq_functions(mods):
+    for m, fn, acc in mq.mq_functions(mods, check=False):
         rs = mq.roles(fn, acc)
         if "init" in rs or not (rs & {"claim", "send"}):
             continue
@@ -414,6 +417,7 @@ def run(chk):
             ("messageq_t", "sendp"), ("messageq_t", "full_flags"), ("kernel", "taint_flags")}
     chk.expect("R1", "_Atomic fields found in debug info (table derivation)", len(need & table), len(need))
     for cfg in ("default", "noatomics"):
+        check_sender_plain_writes(chk, cfg, progs[cfg])     # (decided whatever else the descriptor holds)
         check_r1(chk, cfg, progs[cfg], table)
         check_r2_mq(chk, cfg, progs[cfg])
         check_r3_slots(chk, cfg, progs[cfg])
